@@ -25,7 +25,7 @@ EXPLANATION = (
 
 def run(tier: str) -> Check:
     check = Check("C15", tier, EXPLANATION)
-    check.rules = ["SHARED-WRITE", "ALLOC", "CLASS-MUTABLE", "DELEGATE", "MODULE-ENTRY"]
+    check.rules = ["SHARED-WRITE", "ALLOC", "CLASS-MUTABLE", "CACHE-ALIAS", "DELEGATE", "MODULE-ENTRY"]
     check.assumptions = [
         "thread schedules are covered only through 'no shared mutable write exists'; atomicity of the benign cache writes is assumed (idempotent)",
         "objects reachable only from locals of a call are per-call (allocation-site abstraction, flow- and context-insensitive)",
@@ -34,6 +34,9 @@ def run(tier: str) -> Check:
     shared.analyse(check, repo)
     shared.allocation_sites(check, repo)
     shared.class_level_mutables(check, repo)
+    from .. import cachealias
+
+    cachealias.run(check, repo)  # who may reach what a memoised function keeps
     # the optimizer as a whole, evaluated on model grammars: nothing that was handed in is rewritten (sa/optsem.py)
     from ..optsem import check_pipeline
 
